@@ -7,7 +7,7 @@
    oracle.  "fresh" blocks are blocks that did not exist before the call: storage that nothing
    else can reach.  The metadata / slice containers are covered by the sanitizer run only.
    Statements only; proofs in MemFacts.v. *)
-From Sbdf Require Import Imp ImpCall Gen.Prog ImpFactsFrame ImpFactsHeap ImpFactsCells ImpFactsDestroy.
+From Sbdf Require Import Imp ImpCall Gen.Prog ImpBase ImpFactsCells ImpFactsDestroy.
 From Coq Require Import List.
 From Sbdf Require Import Mem MemFacts.
 
